@@ -12,6 +12,7 @@ import (
 	"io"
 	"strings"
 	"sync"
+	"time"
 )
 
 type VerifCfgArgs struct {
@@ -34,6 +35,11 @@ type VerifCfgResult struct {
 	HasKey                       bool // the CFG record has a "timeout" member
 	KeyValue                     int
 	Err                          string
+	// the same ACT and CFG lines through the REAL relay handshake (a jump host in between): what a
+	// client behind the relay works with
+	RelayClientTimeout int
+	RelayClientArmed   bool
+	RelayErr           string
 }
 
 type verifCfgTee struct {
@@ -55,8 +61,9 @@ func VerifCfgHandshake(a VerifCfgArgs) (r VerifCfgResult) {
 	defer s2cW.Close()
 	defer c2sW.Close()
 	tee := &verifCfgTee{w: s2cW}
+	teeC := &verifCfgTee{w: c2sW}
 	ts := newTransfer(tee, nil, false, nil)
-	tc := newTransfer(c2sW, nil, false, nil)
+	tc := newTransfer(teeC, nil, false, nil)
 	wrapTransferInput(ts, c2sR, false)
 	wrapTransferInput(tc, s2cR, false)
 	args := &baseArgs{Quiet: a.Quiet, Overwrite: a.Overwrite, Binary: a.Binary, Escape: a.Escape, Directory: a.Directory,
@@ -93,6 +100,9 @@ func VerifCfgHandshake(a VerifCfgArgs) (r VerifCfgResult) {
 	tee.mu.Lock()
 	line := string(tee.buf)
 	tee.mu.Unlock()
+	teeC.mu.Lock()
+	act := append([]byte(nil), teeC.buf...)
+	teeC.mu.Unlock()
 	if i := strings.Index(line, "#CFG:"); i >= 0 {
 		body := strings.TrimRight(line[i+5:], "\r\n")
 		if js, err := decodeString(body); err == nil {
@@ -106,6 +116,35 @@ func VerifCfgHandshake(a VerifCfgArgs) (r VerifCfgResult) {
 				}
 			}
 		}
+	}
+	// the relay leg: both lines parked in the relay's handshake buffers, its answer to the client
+	// read by a fresh client transfer
+	// (not for a binary record: a relay without a tunnel clears support_binary in the ACT before
+	// the server sees it, so no server behind a relay announces one)
+	if a.Binary {
+		r.RelayErr = "skipped"
+		return
+	}
+	_, toClient, _ := VerifRelayHandshake(noTmuxMode, 0, false, [][]byte{act}, [][]byte{[]byte(line)})
+	tr := newTransfer(io.Discard, nil, false, nil)
+	for _, b := range toClient {
+		tr.buffer.addBuffer(b)
+	}
+	rcDone := make(chan struct{})
+	go func() {
+		defer close(rcDone)
+		if rcfg, err := tr.recvConfig(); err != nil {
+			r.RelayErr = err.Error()
+		} else {
+			r.RelayClientTimeout, r.RelayClientArmed = rcfg.Timeout, tr.getNewTimeout() != nil
+		}
+	}()
+	select {
+	case <-rcDone:
+	case <-time.After(5 * time.Second):
+		tr.stopTransferringFiles(false)
+		<-rcDone
+		r.RelayErr = "the relay sent no CFG line"
 	}
 	return
 }
